@@ -25,10 +25,9 @@ theorem Uniform_sample_eq (lower upper : α) (g : Rng) :
   simp only
   split <;> rfl
 
-/- F53 (29daf79): `Exponential::sample`, `Gumbel::sample`, `Pareto::sample` now redraw while `u == 0.`; a `while` loop is
-outside the translated Rust subset, so `Generated/SrcC03.lean` keeps the LAST translated bodies (the formula applied to the
-draw `u`) and the runner reports a source-drift note.  What is tied here is therefore only: the model's formula after the
-loop (`*.ofU`) is that last translated formula.  Needed from the translator: the expression after the `while` as a fragment. -/
+/- F53 (29daf79): `Exponential::sample`, `Gumbel::sample`, `Pareto::sample` redraw while `u == 0.`.  The three theorems below
+tie the formula AFTER the loop (`*.ofU`) to the straight-line translation of that formula; the whole bodies including the
+`while` loop are regenerated and tied in `Props/SrcTieC03Mut.lean` (`*_sampleLoop_eq`, `Gamma_prepareLoop_eq`). -/
 theorem Exponential_sample_eq (lambda u : α) :
     Exponential.ofU lambda u = Cv.Src.C03.Exponential_sample u lambda := rfl
 
